@@ -14,7 +14,7 @@ Names == { "null", "true", "false",
            "bytes_empty", "bytes_12", "bytes_12_b64",
            "obj_default", "obj_empty", "obj_a1", "obj_ab", "obj_ba", "obj_a2",
            "arr_empty", "arr_1", "arr_1_2", "arr_1d",
-           "cref_i64_1", "cref_obj_a1", "ref_arr_1" }
+           "cref_i64_1", "cref_null", "cref_obj_a1", "ref_arr_1" }
 Types == { "int8", "uint8", "int16", "uint16", "int32", "uint32", "int64", "uint64" }
 Init == a \in Names /\ b = "" /\ phase = 0
 Next == phase = 0 /\ phase' = 1 /\ a' = a /\ b' \in Names \cup Types
